@@ -9,6 +9,13 @@ TRUST = ("rustc nightly's type checker and MIR construction (facts are read from
 
 CLAIMS = {
     # id: (technique, level text, design_ref)
+    "C09": ("who-may-call census over resolved trait-method call sites + memoisation guard-dominance/post-dominance (T-MEMO) on MIR",
+            "Decides the mechanisms of C09 on every path: single choke point per provider method, each dominated by the miss "
+            "edge of its memo lookup and followed by the insert under the same key, in-flight sharing for get_candidates, per-solve "
+            "dedup sets, eager queueing only behind a truthful availability query, causal queueing only from the dependencies "
+            "consumer, and run_sat's filter on value==true/not-yet-encoded. These are exactly the mechanisms whose removal keeps "
+            "all snapshots identical; which solvables the search visits is not decided.",
+            "DESIGN.md section 4 C09"),
     "C12": ("MIR guard-dominance + def-use + must-use census (rustc_private driver)",
             "Decides the structural clause of C12 on every path of the type-checked MIR: each solver-side provider fetch is "
             "dominated by the None edge of a cancellation poll with no suspension point in between and the Some edge returns "
